@@ -107,7 +107,12 @@ def churn(draw):
         ops.append(['resp', [{'k': 'PTR', 'type': ti, 'inst': (ii + 1) % 4, 'sp': 0, 'ttl': 4500, 'flush': True}]])
         ops.append(['tick', draw(st.sampled_from([999, 1001, 10001, 11001]))])
     ops.append(['tick', draw(st.sampled_from([0, 1, 9999, 10001]))])
-    ops.append(['resp', [p(draw(st.sampled_from([2, 4500])), draw(st.integers(0, 1)))]])
+    if draw(st.integers(0, 2)) == 0:
+        # ... or a *different* instance of the type is announced at that point (X has run out, the purge may not have come yet)
+        ops.append(['resp', [{'k': 'PTR', 'type': ti, 'inst': (ii + 2) % 4, 'sp': 0, 'ttl': 4500, 'flush': False}]])
+        ops.append(['tick', draw(st.sampled_from([1, 10001]))])
+    else:
+        ops.append(['resp', [p(draw(st.sampled_from([2, 4500])), draw(st.integers(0, 1)))]])
     return ops
 
 
